@@ -1,7 +1,7 @@
 (* C12 - Listeners and the model are first-class callback providers, attached once.  Statements only. *)
 From Coq Require Import List Arith Bool.
 Import ListNotations.
-From PySM Require Import Impl.Engine Impl.Registry Proofs.EngineProofs Proofs.RegistryProofs.
+From PySM Require Import Impl.Engine Impl.Registry Impl.Process Proofs.EngineProofs Proofs.RegistryProofs Proofs.ProcessProofs.
 
 (* parity: an action / validator name gets exactly one wrapper per provider of the resolution round
    that has the attribute, with the spec's event filter and expected value - machine, model,
@@ -52,6 +52,16 @@ Print Assumptions C12_reattach_later_is_noop.
 (* non-vacuity: `on_x` (user name 1) on the machine and on two listeners: three wrappers; the same
    name as guard: one wrapper over the three; attaching listener 3 twice adds one wrapper *)
 Definition provs3 : list provider := [[NUser 1]; []; [NUser 1]; [NUser 1]].
+(* listeners attached to one instance are never invoked by another: in a process of several machine
+   objects - each with its own providers - driven in any interleaving, the callback log (and every
+   other observation) of object i is its log when driven alone; adding a listener to another object
+   (an OAdd addressed to it) is one of "the other objects' operations" *)
+Theorem C12_other_instances_listeners_never_invoked :
+  forall fuel h p i m, nth_error p i = Some m ->
+    own_obs i (snd (prun fuel p h)) = snd (mrun fuel m (own_ops i h)).
+Proof. exact process_obs_projection. Qed.
+Print Assumptions C12_other_instances_listeners_never_invoked.
+
 Example C12_nonvacuous :
   length (resolve_spec provs3 GOn [0; 1; 2; 3] (inline (NUser 1))) = 3
   /\ map (fun w => length (w_cbs w)) (resolve_spec provs3 GCond [0; 1; 2; 3] (guard (NUser 1, true))) = [3]
